@@ -15,9 +15,21 @@ class JFn(R.Fn):
         self.src = src
 
 
+class JCat(str):
+    """a string argument written in the program as a concatenation of its pieces (long concatenations are kept
+    as ropes by the evaluator instead of flat strings)"""
+
+    def source(self):
+        n = len(self)
+        cuts = sorted({0, n // 3, (2 * n) // 3, n})
+        return "(" + " + ".join(jstr(self[a:b]) for a, b in zip(cuts, cuts[1:])) + ")" if n >= 3 else jstr(str(self))
+
+
 def render(v):
     if isinstance(v, JFn):
         return "(" + v.src + ")"
+    if isinstance(v, JCat):
+        return v.source()
     if isinstance(v, list):
         return "[" + ", ".join(render(x) for x in v) + "]"
     if isinstance(v, dict):
